@@ -182,3 +182,8 @@ package parser
 // checked-in grammar, so a change to either that is not reflected in the other is reported.
 //@ grammar C11 parser/parser.y parser/parser.y.go goyacc -p grits -o parser/parser.y.go parser/parser.y
 //@ grammar C12 parser/parser.y parser/parser.y.go goyacc -p grits -o parser/parser.y.go parser/parser.y
+
+// C12, the grammar's actions: every alternative uses the semantic value of every nonterminal on its right-hand side, so
+// nothing the parser has built for a part of the text (a statement, a branch, a name, an option) is dropped on the way
+// up. `root : program` is exempt: program's own actions hand the result to the lexer, root has no value.
+//@ grammarvalues C12 except root/1
